@@ -47,8 +47,7 @@ func match(filter CompFilter, comp *ical.Component) (bool, error) {
 		return false, nil
 	}
 
-	var zeroDate time.Time
-	if filter.Start != zeroDate {
+	if !filter.Start.IsZero() || !filter.End.IsZero() {
 		match, err := matchCompTimeRange(filter.Start, filter.End, comp)
 		if err != nil {
 			return false, err
@@ -121,8 +120,7 @@ func matchPropFilter(filter PropFilter, comp *ical.Component) (bool, error) {
 		}
 	}
 
-	var zeroDate time.Time
-	if filter.Start != zeroDate {
+	if !filter.Start.IsZero() || !filter.End.IsZero() {
 		match, err := matchPropTimeRange(filter.Start, filter.End, field)
 		if err != nil {
 			return false, err
@@ -160,41 +158,41 @@ func matchCompTimeRange(start, end time.Time, comp *ical.Component) (bool, error
 	}
 	event := ical.Event{comp}
 
-	eventStart, err := event.DateTimeStart(start.Location())
+	// A zero start or end is an open bound
+	loc := start.Location()
+	if start.IsZero() {
+		loc = end.Location()
+	}
+	eventStart, err := event.DateTimeStart(loc)
 	if err != nil {
 		return false, err
 	}
-	eventEnd, err := event.DateTimeEnd(end.Location())
+	eventEnd, err := event.DateTimeEnd(loc)
 	if err != nil {
 		return false, err
 	}
 
-	// Event starts in time range
-	if eventStart.After(start) && (end.IsZero() || eventStart.Before(end)) {
-		return true, nil
+	if !eventEnd.After(eventStart) {
+		// No or zero duration: start <= DTSTART AND end > DTSTART
+		return (start.IsZero() || !start.After(eventStart)) && (end.IsZero() || end.After(eventStart)), nil
 	}
-	// Event ends in time range
-	if eventEnd.After(start) && (end.IsZero() || eventEnd.Before(end)) {
-		return true, nil
-	}
-	// Event covers entire time range plus some
-	if eventStart.Before(start) && (!end.IsZero() && eventEnd.After(end)) {
-		return true, nil
-	}
-	return false, nil
+	// start < DTEND AND end > DTSTART
+	return (start.IsZero() || start.Before(eventEnd)) && (end.IsZero() || end.After(eventStart)), nil
 }
 
 func matchPropTimeRange(start, end time.Time, field *ical.Prop) (bool, error) {
 	// See https://datatracker.ietf.org/doc/html/rfc4791#section-9.9
 
-	ptime, err := field.DateTime(start.Location())
+	loc := start.Location()
+	if start.IsZero() {
+		loc = end.Location()
+	}
+	ptime, err := field.DateTime(loc)
 	if err != nil {
 		return false, err
 	}
-	if ptime.After(start) && (end.IsZero() || ptime.Before(end)) {
-		return true, nil
-	}
-	return false, nil
+	// start <= value < end, a zero start or end being an open bound
+	return (start.IsZero() || !ptime.Before(start)) && (end.IsZero() || ptime.Before(end)), nil
 }
 
 func matchParamFilter(filter ParamFilter, field *ical.Prop) bool {
